@@ -1474,7 +1474,28 @@ func (m *metadataAPI) GetConsumerGroup(id string) *consumerGroup {
 
 // Reset closes all streams and consumer groups and clears all existing state
 // in the metadata store.
+//
+// The metadata mutex is never held while the consumer groups mutex (or a group
+// mutex) is acquired: consumer group operations hold those while they read the
+// streams through the metadata mutex to rebalance assignments, so acquiring
+// them in the opposite order can deadlock.
 func (m *metadataAPI) Reset() error {
+	if err := m.resetStreams(); err != nil {
+		return err
+	}
+	m.consumerGroupsMu.Lock()
+	defer m.consumerGroupsMu.Unlock()
+	for _, group := range m.getConsumerGroups() {
+		group.Close()
+	}
+	m.consumerGroups = make(map[string]*consumerGroup)
+	m.resetGroupFailovers()
+	return nil
+}
+
+// resetStreams closes all streams and clears the stream and partition failover
+// state in the metadata store.
+func (m *metadataAPI) resetStreams() error {
 	m.mu.Lock()
 	defer m.mu.Unlock()
 	for _, stream := range m.getStreams() {
@@ -1483,25 +1504,24 @@ func (m *metadataAPI) Reset() error {
 		}
 	}
 	m.streams = make(map[string]*stream)
-	m.consumerGroupsMu.Lock()
-	defer m.consumerGroupsMu.Unlock()
-	for _, group := range m.getConsumerGroups() {
-		group.Close()
-	}
-	m.consumerGroups = make(map[string]*consumerGroup)
-	m.resetFailovers()
+	m.resetPartitionFailovers()
 	return nil
 }
 
-// resetFailovers cancels all in-flight failovers and clears the failover state
-// in the metadata store. Both the metadata API and consumer groups mutexes
-// must be held when calling this.
-func (m *metadataAPI) resetFailovers() {
+// resetPartitionFailovers cancels all in-flight partition failovers and clears
+// their state in the metadata store. The metadata API mutex must be held when
+// calling this.
+func (m *metadataAPI) resetPartitionFailovers() {
 	for _, failover := range m.partitionFailovers {
 		failover.cancel()
 	}
 	m.partitionFailovers = make(map[*partition]*failoverStatus)
+}
 
+// resetGroupFailovers cancels all in-flight consumer group failovers and
+// clears their state in the metadata store. The consumer groups mutex must be
+// held when calling this.
+func (m *metadataAPI) resetGroupFailovers() {
 	for _, failover := range m.groupFailovers {
 		failover.cancel()
 	}
@@ -1582,11 +1602,13 @@ func (m *metadataAPI) RemoveTombstonedStream(stream *stream, epoch uint64) error
 // LostLeadership should be called when the server loses metadata leadership.
 // This will cancel in-flight failovers.
 func (m *metadataAPI) LostLeadership() {
+	// See Reset for why the two mutexes are not held at the same time.
 	m.mu.Lock()
-	defer m.mu.Unlock()
+	m.resetPartitionFailovers()
+	m.mu.Unlock()
 	m.consumerGroupsMu.Lock()
-	defer m.consumerGroupsMu.Unlock()
-	m.resetFailovers()
+	m.resetGroupFailovers()
+	m.consumerGroupsMu.Unlock()
 }
 
 // deleteStream deletes the stream and the associated on-disk data for it. It
